@@ -61,3 +61,19 @@ Example wire_example :
              (WObj 0 [WStr ["T"; "o"; "m"]%byte; WInt 18; WRef 0]) in
   tok_ok w = true /\ parse_all (emit w) = Some w /\ length (emit w) = 41%nat.
 Proof. vm_compute. repeat split; reflexivity. Qed.
+
+(* T2: io/encode.go utf16Length as regenerated from the source on every run (Gen/GoFuncs.v, golite.go)
+   - a counted loop with bounds-checked reads str[i], str[i+1] - equals the hand model for every byte
+   string (Proofs/GoFuncsProofs.v, induction over the string), never panics, and therefore decides
+   strict UTF-8 and counts UTF-16 code units. *)
+From HV Require Import Lib.GoLite Gen.GoFuncs Proofs.GoFuncsProofs.
+Theorem C03_source_utf16Length_decides_utf8 : forall s,
+  io_utf16Length s = GRet (match str_chars s with Some cs => Z.of_N (units cs) | None => (-1)%Z end).
+Proof. exact io_utf16Length_source_spec. Qed.
+Print Assumptions C03_source_utf16Length_decides_utf8.
+
+Example source_utf16Length_nonvacuous :
+  io_utf16Length [Byte.xe2; Byte.x82; Byte.xac; Byte.x41] = GRet 2%Z /\
+  io_utf16Length [Byte.xf0; Byte.x9f; Byte.x98; Byte.x80] = GRet 2%Z /\
+  io_utf16Length [Byte.xc0; Byte.x80] = GRet (-1)%Z /\ io_utf16Length [Byte.xe2; Byte.x82] = GRet (-1)%Z.
+Proof. vm_compute. repeat split. Qed.
